@@ -225,7 +225,7 @@ def c01(tier):
     vlib.build_harness()
     mc_writer(rep, wd, "quick")
     sd = vlib.seed()
-    n = 150 if tier == "quick" else 4000
+    n = 400 if tier == "quick" else 4000
     g = gen_writer.Gen(sd * 104729 + 1, tier)
     scs = []
     for i in range(n):
@@ -296,7 +296,7 @@ def c02(tier):
     vlib.build_harness()
     mc_writer(rep, wd, tier)
     sd = vlib.seed()
-    n = 120 if tier == "quick" else 3000
+    n = 300 if tier == "quick" else 3000
     g = gen_writer.Gen(sd * 15485863 + 2, tier)
     scs = [g.valid_archive("v%05d" % i, nmax=7, allow_long=(i % 8 == 0)) for i in range(n)]
     # raw copies interleaved with ordinary entries
@@ -348,7 +348,7 @@ def c17(tier):
         ops.append({"op": "Finish"})
         scs.append({"sc": "al%05d" % i, "ops": ops})
     # extra-data programs: local-only, central-only, shared; reserved / ZIP64 / truncated records
-    nx = 150 if tier == "quick" else 4000
+    nx = 400 if tier == "quick" else 4000
     for i in range(nx):
         ops = [{"op": "New"}]
         for _ in range(g.r.randint(1, 4)):
@@ -408,7 +408,7 @@ def c14(tier):
     mc_writer(rep, wd, "quick")
     sd = vlib.seed()
     g = gen_writer.Gen(sd * 49979687 + 14, tier)
-    n = 100 if tier == "quick" else 4000
+    n = 250 if tier == "quick" else 4000
     scs = []
     for i in range(n):
         # source 0: an archive from this writer with every method; source 1: independent builder
@@ -498,7 +498,7 @@ def c13(tier):
     import refzip
     sd = vlib.seed()
     g = gen_writer.Gen(sd * 86028121 + 13, tier)
-    n = 90 if tier == "quick" else 3000
+    n = 200 if tier == "quick" else 3000
     scs = []
     for i in range(n):
         kind = ["writer", "writer", "refzip", "refzip-prefix", "refzip-z64", "cpython", "cpython-dd", "cpython-z64",
@@ -641,7 +641,7 @@ def c03(tier):
     rep.notes["tail_cases_materialised"] = len(scs)
     run_reader_scenarios(rep, wd, scs, "tails")
     # independent producer with every per-entry freedom; CPython as a second producer
-    n = 250 if tier == "quick" else 6000
+    n = 600 if tier == "quick" else 6000
     scs = []
     for i in range(n):
         s, v = gen_reader.scenario("p%05d" % i, gen_reader.rand_archive(rnd))
@@ -978,7 +978,7 @@ def c04(tier):
     rnd = random.Random(sd * 3571 + 4)
     seeds = read_seeds(rnd)
     scs = []
-    budget = 1400 if tier == "quick" else 60000
+    budget = 4000 if tier == "quick" else 60000
     sites = []
     for name, b, v, pws in seeds:
         for i, e in enumerate(v["entries"]):
@@ -1153,7 +1153,7 @@ def c15(tier):
     #     appear in the file, and they must read back (Trace_Writer)
     g = gen_writer.Gen(sd * 17 + 15, tier)
     ws = []
-    for i in range(60 if tier == "quick" else 2500):
+    for i in range(150 if tier == "quick" else 2500):
         ops = [{"op": "New"}]
         for _ in range(g.r.randint(1, 4)):
             if g.r.random() < 0.7:
@@ -1247,7 +1247,7 @@ def c16(tier):
                         for bit in range(8):
                             sites.append((rname, e["dstart"] + pos, bit))
                 if tier == "quick":
-                    sites = rnd.sample(sites, min(len(sites), 60))
+                    sites = rnd.sample(sites, min(len(sites), 150))
                 for (rname, pos, bit) in sites:
                     dm = {"salt": "salt", "verifier": "verifier", "ct": "data", "mac": "mac"}[rname]
                     es.append({"sc": "t-ae%d-s%d-m%d-l%d-%s-%d.%d" % (ver, st, m, ln, rname, pos, bit), "hex": flip(b, pos, bit).hex(),
@@ -1349,7 +1349,7 @@ def c10(tier):
     g = gen_writer.Gen(sd * 13 + 10, tier)
     dump = os.path.join(wd, "dump")
     os.makedirs(dump, exist_ok=True)
-    na = 25 if tier == "quick" else 400
+    na = 60 if tier == "quick" else 400
     ws = []
     for i in range(na):
         s = g.valid_archive("w%04d" % i, nmax=5, enc_ok=(i % 6 == 5), end="Finish")
@@ -1670,7 +1670,7 @@ def c11(tier):
                {"op": "AddDir", "name": "newdir", "method": 0}, {"op": "Finish"}]),
              ("append-foreign", [{"op": "Load", "hex": fb.hex()}], {"op": "NewAppend", "arch": 0},
               [{"op": "StartFile", "name": "appended", "method": 0}, {"op": "Write", "data": "x"}, {"op": "Finish"}])]
-    nrand = 2 if tier == "quick" else 40
+    nrand = 6 if tier == "quick" else 40
     for i in range(nrand):
         s = g.valid_archive("x", nmax=5, enc_ok=True, end=rnd.choice(["Finish", "Drop"]))
         progs.append(("rand%d" % i, [], {"op": "New"}, s["ops"][1:]))
@@ -1689,8 +1689,8 @@ def c11(tier):
         fruns.append([{"ev": "Reset", "sc": name}, b])
         opcount[name] = b["ops"]
         ks = list(range(b["ops"]))
-        if tier == "quick" and len(ks) > 160:
-            ks = sorted(rnd.sample(ks, 160))
+        if tier == "quick" and len(ks) > 400:
+            ks = sorted(rnd.sample(ks, 400))
         for k in ks:
             faults.append({"sc": "%s#%d" % (name, k), "ops": pre + [dict(start, fault_at=k)] + body, "_name": name, "_k": k})
     rep.notes["writer_ops_per_scenario"] = opcount
@@ -1731,8 +1731,8 @@ def c11(tier):
     rbase = {e["sc"]: e for e in vlib.read_ndjson(tfile)}
     for s in rscs:
         ks = list(range(rbase[s["sc"]]["ops"]))
-        if tier == "quick" and len(ks) > 250:
-            ks = sorted(rnd.sample(ks, 250))
+        if tier == "quick" and len(ks) > 500:
+            ks = sorted(rnd.sample(ks, 500))
         s["faults"] = ks
         opcount[s["sc"]] = rbase[s["sc"]]["ops"]
     pfile, tfile = os.path.join(wd, "rfault.ndjson"), os.path.join(wd, "rfault-trace.ndjson")
@@ -2752,6 +2752,76 @@ def c05(tier):
 CHECKS = {"C05": c05, "C08": c08, "C07": c07, "C18": c18, "C06": c06, "C11": c11, "C20": c20, "C10": c10, "C04": c04, "C15": c15, "C16": c16, "C09": c09, "C19": c19, "C03": c03, "C13": c13, "C14": c14, "C01": c01, "C02": c02, "C12": c12, "C17": c17}
 
 
+
+REPLAY = {  # check label -> (harness executor, trace specification, event filter)
+    "model": ("wexec", "Trace_Writer", None), "random": ("wexec", "Trace_Writer", None), "roundtrip": ("wexec", "Trace_Writer", None),
+    "valid": ("wexec", "Trace_Writer", None), "align": ("wexec", "Trace_Writer", None), "rawcopy": ("wexec", "Trace_Writer", None),
+    "append": ("wexec", "Trace_Writer", None), "writer-names": ("wexec", "Trace_Writer", None), "shortwrite": ("wexec", "Trace_Writer", None),
+    "crate-encrypts": ("wexec", "Trace_Writer", None),
+    "tails": ("rexec", "Trace_Open", None), "producer": ("rexec", "Trace_Open", None), "decode": ("rexec", "Trace_Open", None),
+    "table": ("rexec", "Trace_Open", None), "aes-open": ("rexec", "Trace_Open", None),
+    "sched": ("eexec", "Trace_EntryRead", None), "damage": ("eexec", "Trace_EntryRead", None), "zc-reads": ("eexec", "Trace_EntryRead", None),
+    "aes-reads": ("eexec", "Trace_EntryRead", None), "stream": ("sexec", "Trace_Stream", None), "clones": ("cexec", "Trace_Clones", None),
+    "extract": ("xexec", "Trace_Extract", None), "zip64": ("zexec", "Trace_Zip64", None),
+}
+
+
+def replay(pid, path):
+    """re-run ONE recorded case on the current tree and judge it again with the same trace specification:
+    exit 1 + VIOLATION when it is rejected again, exit 0 when the specification now accepts it"""
+    r = json.load(open(path))
+    wd = vlib.workdir(pid, "replay")
+    vlib.build_harness()
+    label = r.get("check", "")
+    sc = r.get("scenario")
+    trace = os.path.join(wd, "replay-trace.ndjson")
+    how = None
+    if r.get("kind") == "model-level violation":
+        res = vlib.tlc_mc(r["config"].replace(".cfg", ".tla") if r["config"].startswith("MC_") and os.path.exists(os.path.join(vlib.SPEC, r["config"].replace(".cfg", ".tla"))) else "MC_Writer.tla",
+                          r["config"], wd, timeout=1800)
+        bad = bool(res["error"])
+        print(("VIOLATION property=%s replay=%s" % (pid, path)) if bad else "model-level violation no longer reproduces")
+        return 1 if bad else 0
+    if label in REPLAY and isinstance(sc, dict) and (sc.get("ops") or sc.get("hex") or sc.get("segments") or sc.get("steps") is not None):
+        ex, mod, _ = REPLAY[label]
+        if sc.get("hex") == "(omitted)":
+            sc = None
+        else:
+            if ex == "xexec":
+                sc = dict(sc, sbx=os.path.join(wd, "sbx"), via=["seek", "stream"], abs_canary="/zv_abs_canary")
+            progs = os.path.join(wd, "replay-scenario.ndjson")
+            vlib.write_ndjson(progs, [sc])
+            old = os.umask(0o022)
+            try:
+                vlib.run_harness([ex, progs, trace])
+            finally:
+                os.umask(old)
+            how = "re-executed with %s" % ex
+    elif label == "robust" and isinstance(sc, dict) and sc.get("case"):
+        mod = "Trace_Robust"
+        progs = os.path.join(wd, "replay-cases.ndjson")
+        c = sc["case"]
+        vlib.write_ndjson(progs, [{"seed_def": c["seed"], "hex": sc.get("seed_hex", ""), "pws": ["7077", "70773"]}, c])
+        vlib.run_harness(["pexec", progs, trace, "90"])
+        evs = [{"ev": "Reset", "sc": "replay"}] + vlib.read_ndjson(trace)
+        vlib.write_ndjson(trace, evs)
+        how = "re-executed with pexec"
+    if how is None:
+        # no executor input was recorded for this kind of case: judge the recorded observations again
+        mod = {"faults": "Trace_Fault", "dostime": "Trace_DosTime", "paths": "Trace_Path", "spaths": "Trace_Path", "robust": "Trace_Robust"}.get(label) or (REPLAY.get(label) or (None, "Trace_Writer"))[1]
+        seg = r.get("trace_segment") or []
+        if seg and seg[0].get("ev") != "Reset":
+            seg = [{"ev": "Reset", "sc": seg[0].get("sc", "replay")}] + seg
+        vlib.write_ndjson(trace, seg)
+        how = "recorded observations re-validated"
+    ok, st, idx, ev, inv = vlib.tlc_trace(mod + ".tla", mod + ".cfg", trace, wd, tag="replay")
+    log("replay (%s) against %s: %s" % (how, mod, "accepted" if ok else "rejected at event %s %s" % (idx, inv or "")))
+    if not ok:
+        print("VIOLATION property=%s replay=%s" % (pid, path))
+        return 1
+    return 0
+
+
 def setup():
     vlib.build_harness()
     # parse every specification module
@@ -2780,7 +2850,11 @@ def main():
     # the tier named on the command line wins; VERIF_TIER only fills in when none is given
     tier = a[1] if a[1] in ("quick", "thorough") else (os.environ.get("VERIF_TIER") or "quick")
     if a[1] == "--replay":
-        tier = "quick"
+        try:
+            sys.exit(replay(pid, a[2]))
+        except ToolTrouble as e:
+            log("TOOL TROUBLE: %s" % e)
+            sys.exit(2)
     if pid not in CHECKS:
         log("no check for " + pid)
         sys.exit(2)
